@@ -227,6 +227,21 @@ def reindex_database(
             session.repo.add_file(zorg_page)
             session.commit()
 
+    # When the whole directory is reindexed, pages that no longer exist on
+    # disk (deleted or renamed files) must leave the index as well.
+    if not cmd.paths:
+        for zorg_page_name in old_file_to_hash:
+            if zorg_page_name not in file_to_hash:
+                num_of_updates += 1
+                if session.repo.remove_file_by_name(zorg_page_name):
+                    c.zprint(
+                        "REMOVING DELETED FILE",
+                        zorg_page_name,
+                        fg_color=Color.BLACK,
+                        bg_color=Color.YELLOW,
+                    )
+                session.commit()
+
     if num_of_updates == 0:
         c.zprint("NO ZORG FILES HAVE BEEN MODIFIED")
 
